@@ -35,6 +35,8 @@ type Case struct {
 	History    []HistProg `json:"history,omitempty"`
 	Prog       []string   `json:"prog,omitempty"`
 	Sub        []string   `json:"sub,omitempty"`
+	Warm       []string   `json:"warm,omitempty"`     // C31: earlier Run calls on the same Runner, each with a context of its own that is never cancelled
+	PerStmt    bool       `json:"per_stmt,omitempty"` // C31: the program is run one top-level statement per Run call
 	Expect     []string   `json:"expect,omitempty"` // expected stdout lines (wait oracle)
 	Strategy   Strategy   `json:"strategy"`
 	CancelStep int        `json:"cancel_step"`
@@ -146,7 +148,8 @@ func genC32(c *Case, r *kit.Rand) {
 		c.T = genMutations(r.Fork("T"), r.Range(1, 5), c.InFunc, true)
 		c.Ctx = kit.Pick(r, []string{"background", "coproc-like-bg-subshell", "procsubst-out", "pipe-both", "bg-cmdsubst", "procsubst-in-bg", "two-bg", "bg-func", "pipe-all",
 			"bg-outliving-subshell", "bg-outliving-cmdsubst", "procsubst-outliving-subshell", "bg-outliving-function-subshell", "bg-in-bg",
-			"pipe-left-fatal", "pipe-all-left-fatal", "pipe-left-exits", "bg-fatal", "cmdsubst-fatal-in-bg"})
+			"pipe-left-fatal", "pipe-all-left-fatal", "pipe-left-exits", "bg-fatal", "cmdsubst-fatal-in-bg",
+			"bg-writes-into-cmdsubst", "bg-writes-into-cmdsubst-late", "procsubst-writes-into-cmdsubst"})
 		c.Faults = genFaults(r.Fork("faults"), []string{"mkfifo-fail", "fifo-open-fail", "exec-fail", "short-read"})
 		// The FIFO error paths are where a child goroutine reports through
 		// runner fields; make sure they are reached often, and place the
@@ -190,6 +193,14 @@ func (c *Case) c32RaceProgram() string {
 		l = append(l, "( : <(\nsleep 1\n"+S+"\n) )", T, "sleep 2", T)
 	case "bg-outliving-function-subshell":
 		l = append(l, "of() { ( {\nsleep 1\n"+S+"\n} & ); }", "of", T, "sleep 2", T)
+	case "bg-writes-into-cmdsubst":
+		// a job started inside $( ) writes to the substitution's output
+		// while the substitution's own statements do, and afterwards
+		l = append(l, "x=$( {\n"+S+"\necho from-job\n} & echo from-subst )", "y=$(echo second)", T, "echo \"$x|$y\" >/dev/null")
+	case "bg-writes-into-cmdsubst-late":
+		l = append(l, "x=$( {\nsleep 1\n"+S+"\necho late\n} & echo b )", "y=$(sleep 2; echo c)", T, "echo \"$x|$y\" >/dev/null")
+	case "procsubst-writes-into-cmdsubst":
+		l = append(l, "x=$( cat <(\n"+S+"\necho ps\n) & echo b )", "y=$(echo c)", T)
 	case "pipe-left-fatal":
 		// the left side ends in a fatal handler error while the right side
 		// is still running statements
@@ -226,6 +237,7 @@ func genC32Wait(c *Case, r *kit.Rand) {
 			}
 		}
 	}
+	saved := make([]bool, k)
 	for i := 0; i < k; i++ {
 		d := kit.Pick(r, []string{"0", "0.5", "1", "2", "3", "1.5"})
 		switch r.Intn(6) {
@@ -244,11 +256,30 @@ func genC32Wait(c *Case, r *kit.Rand) {
 		default:
 			c.Prog = append(c.Prog, fmt.Sprintf("{ x=$(emit 1); sleep %s; (exit %d); } &", d, codes[i]))
 		}
+		saved[i] = r.Chance(1, 3)
+		if saved[i] {
+			c.Prog = append(c.Prog, fmt.Sprintf("j%d=$!", i+1))
+		}
 		if r.Chance(1, 3) {
 			c.Prog = append(c.Prog, kit.Pick(r, []string{"v=1", "echo between", ": $(emit 1)", "sleep 0.5"}))
 			if strings.HasPrefix(c.Prog[len(c.Prog)-1], "echo") {
 				c.Expect = append(c.Expect, "between")
 			}
+		}
+		// a job id keeps naming its job whatever happens in between: a
+		// plain wait, a wait for an earlier job, a job started and collected
+		// by a function or subshell of its own
+		switch r.Intn(12) {
+		case 0:
+			c.Prog = append(c.Prog, "wait; echo mid=$?")
+			c.Expect = append(c.Expect, "mid=0")
+		case 1:
+			j := r.Intn(i + 1)
+			c.Prog = append(c.Prog, fmt.Sprintf("wait g%d; echo early%d=$?", j+1, j+1))
+			c.Expect = append(c.Expect, fmt.Sprintf("early%d=%d", j+1, codes[j]))
+		case 2:
+			c.Prog = append(c.Prog, "( (exit 99) & wait g1; echo inner=$? )")
+			c.Expect = append(c.Expect, "inner=99")
 		}
 	}
 	order := make([]int, k)
@@ -260,7 +291,11 @@ func genC32Wait(c *Case, r *kit.Rand) {
 		order[i], order[j] = order[j], order[i]
 	}
 	for _, j := range order {
-		c.Prog = append(c.Prog, fmt.Sprintf("wait g%d; echo w%d=$?", j+1, j+1))
+		if saved[j] && r.Chance(1, 2) {
+			c.Prog = append(c.Prog, fmt.Sprintf("wait $j%d; echo w%d=$?", j+1, j+1))
+		} else {
+			c.Prog = append(c.Prog, fmt.Sprintf("wait g%d; echo w%d=$?", j+1, j+1))
+		}
 		c.Expect = append(c.Expect, fmt.Sprintf("w%d=%d", j+1, codes[j]))
 		if r.Chance(1, 4) { // waiting twice gives the same status
 			c.Prog = append(c.Prog, fmt.Sprintf("wait g%d; echo again%d=$?", j+1, j+1))
@@ -283,6 +318,7 @@ var c29Pool = []string{
 	"time -p true 2>/dev/null", "! false", "coproc_skip=1", "for ((i=0;i<2;i++)); do echo $i{a,b}; done", "until true; do :; done", "select_x=1", "echo ${s1@Q} ${s1^^} ${!s*} ${#arr[@]} ${arr[@]:1:2}", "echo $(< /home/f1.txt)", "x=$(( ${#s1} + 1 )); echo $x", "case $s1 in f*|g*) echo {c1,c2};; *) :;; esac", "[[ $s1 =~ ^(f)(o+)$ ]] && echo ${BASH_REMATCH[1]}", "ff() { local a1=$1; shift; echo \"$a1 $*\" {y,z}; }; ff {1,2} 3", "al2() { :; }; alias al2='echo aliased '; al2 ll x", "unalias ll 2>/dev/null", "eval 'ff e{1,2}' 2>/dev/null", "source /home/d1/g.sh", "trap 'echo {t1,t2}' ERR; false", "wait",
 	"echo $s1{a,b}", "echo \"p q\"{1..3}", "echo {a,\"b c\"}.txt", "echo ${s1}{1,2}", "echo $(echo cs){x,y}", "echo '{q}'{1,2}$s1", "for i in $s1{x,y} \"z\"{1,2}; do echo $i; done", "arr3=($s1{a,b} \"q\"{1,2})", "export ex$s1{a,b}=1 2>/dev/null", "declare v$s1{1,2}=val 2>/dev/null", "ll $s1{m,n}", "cat <<< $s1{h,i}", "echo ~{a,b} {a,b}$((1+1))", "case $s1{a,b} in *) echo c;; esac", "[[ $s1{a,b} == f* ]] || true", "f $s1{p,q} | cat", "{ echo $s1{bg1,bg2}; } &",
 	"declare -a arr=({1..3} $s1)", "declare v{1,2}=val", "export ex{a,b}=1", "local_fn() { local q{1,2}=z; echo $q1; }; local_fn",
+	"declare -A am; am=(a 1 b 2); am=(a 1 b 2)", "ENVMAP=(k1 v1 k2 v2)", "declare -A am2; am2=(k v o); am2+=(p q)", "amf() { local -A lm; lm=(a 1 b 2); }; amf; amf", "unset 'ENVSPARSE[5]'", "unset 'ENVSPARSE[-1]'", "unset 'ENVARR[-1]'", "for i in 1 2; do declare -A lm2; lm2=(x y z w); done",
 	"for i in {1..3} x{a,b}; do echo $i; done", "arr2=({a,b} c [5]=d)", "arr2+=(e{1,2})", "s1+=x", "ENVARR+=x", "ENVARR+=(y z)", "ENVARR+=([1]=X)", "ENVARR+=([0]=Z w)", "ENVARR+=([-1]=neg)", "ENVSPARSE+=([2]=chg)", "ENVSPARSE+=([5]=chg [9]=far)", "ENVMAP+=([k]=new)", "ENVMAP+=([q]=1)", "ENVARR[1]+=app", "ENVMAP[k]+=app", "unset 'ENVSPARSE[2]'", "ENVARR=(${ENVARR[@]} more)", "read -a ENVARR <<< 'r1 r2'", "mapfile -t ENVARR <<< mapped", "declare -a ENVARR", "local_env() { local ENVARR; ENVARR+=(l); }; local_env", "f_env() { ENVARR[0]=in-func; ENVMAP[k]=in-func; }; f_env", "( ENVARR[0]=sub; ENVMAP[k]=sub )", "{ ENVARR+=([1]=bg); } &", "x=$(ENVARR[1]=cs; echo ${ENVARR[1]})", "ENVARR[0]=pipe | cat", "ENVARR[0]=changed", "ENVSPARSE[3]=new", "ENVSPARSE+=(w)", "ENVMAP[k]=changed", "ENVMAP[n]=1", "unset 'ENVMAP[k]'", "unset 'ENVARR[1]'", "unset ENVARR", "ENVSTR+=more", "unset ENVSTR", "export ENVSTR=re", "ENVRO=try 2>/dev/null", "declare -x ENVARR", "readonly ENVMAP",
 	"cat <<EOF\nhere $s1 $(echo sub)\nEOF", "cat <<-EOF\n\ttabbed $s1\n\tline2\n\tEOF", "cat <<'EOF'\nliteral $s1\nEOF", "cat <<< \"hs $s1\"",
 	"f() { echo \"in f: $*\"; return 3; }", "f {p,q} || true", "f a b &", "f x | cat", "trap 'echo trapped' EXIT", "trap 'echo err-trap' ERR", "false", "g() { f inner; }; g",
@@ -325,11 +361,26 @@ var c30ProgPool = []string{
 	"shopt -s -o nounset", "shopt -u -o nounset", "shopt -s -o noglob", "shopt -u -o noglob", "shopt -s -o errexit", "shopt -s -o pipefail", "set -f", "set +f", "set +u", "set -o noglob", "shopt -s nullglob", "shopt -s extglob", "shopt -s globstar", "shopt -u expand_aliases",
 	// an option toggled by one top-level statement and observed by the next
 	"shopt -s -o nounset\necho \"[$undef_var]\"", "shopt -s -o noglob\necho /home/d1/*.sh", "set -u\nshopt -u -o nounset\necho \"[$undef_var]\"", "set -f\nshopt -u -o noglob\necho /home/d1/*.sh",
+	"set -f -Q 2>/dev/null\necho /home/d1/*.sh", "set -u -Q 2>/dev/null\necho \"[$undef_var]\"", "set -o noglob -o nosuchopt 2>/dev/null\necho /home/d1/*.sh", "shopt -s nullglob nosuchopt 2>/dev/null\necho /home/d1/nomatch*",
 	"set -u\necho \"[$undef_var]\"", "set -f\necho /home/d1/*.sh", "shopt -s nullglob\necho /home/d1/nomatch*", "shopt -s dotglob\necho /home/d1/*", "shopt -s extglob\necho /home/d1/@(g|loop).sh", "shopt -s globstar\necho /home/**/g.sh", "shopt -s nocaseglob\necho /home/d1/G*",
 	"set -o pipefail\nfalse | true\necho rc=$?", "set -e\nfalse\necho not-reached", "set -o allexport\nav=1\ndeclare -p av", "shopt -s expand_aliases\nalias ea='echo ea-body'\nea", "IFS=:\nv=a:b\necho $v", "OPTIND=1\ngetopts ab o -a -b\ngetopts ab o -a -b\necho $o$OPTIND",
 	"echo \"[$undef_var]\"", "echo /home/d1/*.sh", "files=(/home/d1/*); echo ${#files[@]}", "echo /home/d1/nomatch*", "echo ${undef_arr[0]-dflt} \"${undef2:-x}\"", "echo /home/d1/@(g|loop).sh", "echo /home/**/g.sh",
 	"echo rc=$?", "echo rc=$?", "f_ret() { return 3; }; f_ret", "( exit 6 )", "true | false", "! true", "x=$(fail 9)", "getopts ab o -b; echo \"o=$o OPTIND=$OPTIND\"", "shift 2>/dev/null; echo \"params:$#\"", "local_top=1 2>&1", "trap 'echo p-exit' EXIT", "alias pa='echo pa'; shopt -s expand_aliases", "pa 2>&1",
 	"type echo >/dev/null; echo rc=$?", "exit 5", "echo unreachable-maybe", "set -e", "set -u", "trap 'echo p-err' ERR",
+}
+
+// c30StatusTriple composes three consecutive top-level statements: one that
+// ends in a chosen status, one "quiet" statement of any kind, one that
+// observes the last status.
+func c30StatusTriple(r *kit.Rand) string {
+	set := kit.Pick(r, []string{"false", "(exit 7)", "fail 3", "! true", "f_ret3() { return 3; }; f_ret3", "true", "x=$(fail 9)", "[[ a == b ]]", "(( 0 ))", "true | false"})
+	mid := kit.Pick(r, []string{
+		"true &", ": &", "sleep 1 &", "{ false; } &", "(exit 4) &", "fail 2 &", "x=1 &",
+		"x=1", "y=$(true)", "y=$(false)", ": > /home/o.txt", "f_noop() { :; }", "declare z", "export E=1", "{ :; }", "if false; then :; fi", "while false; do :; done",
+		"for i in; do :; done", "case x in y) ;; esac", "wait", "eval ''", "eval", "unset nope", "alias q=r", "trap - INT", "shift 0", "cd .", "v=$?", "readonly ro9=1", ": <(true)", "[[ a == a ]]", "(( 1 ))", "! false", "true | true",
+	})
+	obs := kit.Pick(r, []string{"echo rc=$?", "st=$?; echo st=$st", "exit", "if [ $? -ne 0 ]; then echo nonzero; else echo zero; fi", "( exit )\necho rc=$?", "f_obs() { return; }; f_obs; echo rc=$?", "exit $?", "echo $(echo in-subst $?)", "$(exit $?) ; echo rc=$?"})
+	return set + "\n" + mid + "\n" + obs
 }
 
 func genC30(c *Case, r *kit.Rand) {
@@ -338,6 +389,9 @@ func genC30(c *Case, r *kit.Rand) {
 		n := r.Range(3, 10)
 		for i := 0; i < n; i++ {
 			s := kit.Pick(r, c30ProgPool)
+			if r.Chance(1, 4) {
+				s = c30StatusTriple(r)
+			}
 			if strings.Contains(s, "EXIT") {
 				continue // the documented exception: only a whole-file run fires the EXIT trap
 			}
@@ -364,9 +418,38 @@ func genC30(c *Case, r *kit.Rand) {
 	}
 	n := r.Range(2, 8)
 	for i := 0; i < n; i++ {
+		if r.Chance(1, 8) {
+			c.Prog = append(c.Prog, c30StatusTriple(r))
+			continue
+		}
 		c.Prog = append(c.Prog, kit.Pick(r, c30ProgPool))
 	}
 	c.Stdin = kit.Pick(r, []string{"nil", "nil", "data:in1\nin2\nin3\nin4\n", "closed"})
+	if r.Chance(1, 5) {
+		// One history program blocks reading the runner's own stdin, which
+		// stays silent until P starts, and is cancelled there (it consumed
+		// nothing); P then reads the input that arrives with it.
+		c.Stdin = "latedata:in1\nin2\nin3\nin4\n"
+		h := &c.History[r.Intn(len(c.History))]
+		h.Lines = append(h.Lines, kit.Pick(r, c30StdinBlockers))
+		h.CancelStep = kit.Pick(r, []int{40, 60, r.Intn(25)})
+		c.Prog = append(c.Prog, "")
+		at := r.Intn(len(c.Prog))
+		copy(c.Prog[at+1:], c.Prog[at:])
+		c.Prog[at] = kit.Pick(r, c30StdinReaders)
+	}
+}
+
+// c30StdinBlockers block on the runner's stdin for as long as it is silent.
+var c30StdinBlockers = []string{
+	"read hx", "read -r -a harr", "mapfile -t hm", "readarray hra", "select ho in a b; do :; done", "while read hl; do echo $hl; done",
+	"read -s hs", "read -n 2 hn", "hf() { read hz; }; hf", "read -p prompt hp", "until read hu; do :; done",
+}
+
+// c30StdinReaders are statements of P that read the runner's stdin.
+var c30StdinReaders = []string{
+	"read p1; read p2; echo \"got <$p1> <$p2> $?\"", "mapfile -t pm; echo ${#pm[@]} ${pm[0]}", "while read pl; do echo \"line $pl\"; done", "read -a pa; echo ${pa[0]} $?",
+	"read -n 2 pn; echo \"$pn\"; read rest; echo \"$rest\"", "cat", "select po in a b; do echo \"$po $REPLY\"; break; done 2>/dev/null", "read p1 && echo ok-$p1 || echo failed-read",
 }
 
 // hangsForever reports whether a history program can block forever (then it
@@ -375,6 +458,11 @@ func hangsForever(lines []string) bool {
 	for _, l := range lines {
 		if strings.HasPrefix(l, "while true") {
 			return true
+		}
+		for _, b := range c30StdinBlockers {
+			if l == b {
+				return true
+			}
 		}
 	}
 	return false
@@ -483,6 +571,14 @@ func genC31(c *Case, r *kit.Rand, idx int, tier string) {
 		c.Setup = append(c.Setup, kit.Pick(r, c31Prefix))
 	}
 	c.Prog = append([]string{}, p.lines...)
+	// The Runner may have been used before: the context that counts is the
+	// one given to the Run call that is cancelled, not an earlier one.
+	if r.Chance(1, 3) {
+		for i := r.Range(1, 2); i > 0; i-- {
+			c.Warm = append(c.Warm, kit.Pick(r, []string{"w=$(echo warm)", "echo hi >/dev/null", "cat <(echo x) >/dev/null", "wf() { :; }", "true &\nwait", "read w <<< x", "w=$(echo a | cat)", "sleep 1", "echo ${w:-$(echo dflt)} >/dev/null", "emit 1 | drain"}))
+		}
+	}
+	c.PerStmt = r.Chance(1, 8)
 	// Cancellation steps are spread over the execution: the low steps are
 	// enumerated by construction (idx / pool size), later ones are drawn.
 	k := (idx / len(c31Pool))
@@ -732,7 +828,8 @@ func Evaluate(t *testing.T, c *Case, raceLog func() string) *Verdict {
 	case "C31":
 		prog := joinProg(c.Setup, c.Prog)
 		ts := baseSpec(c)
-		ts.Programs = []string{prog}
+		ts.Programs = append(append([]string{}, c.Warm...), prog)
+		ts.PerStmt = c.PerStmt
 		ts.CancelStep = c.CancelStep
 		ts.MaxSteps = 6000
 		res := Execute(t, &ts)
@@ -824,7 +921,7 @@ func executeHistory(t *testing.T, c *Case, ts *RunSpec) *RunResult {
 		if i != ts.CancelProg && hangsForever(h.Lines) {
 			var kept []string
 			for _, l := range h.Lines {
-				if !strings.HasPrefix(l, "while true") {
+				if !hangsForever([]string{l}) {
 					kept = append(kept, l)
 				}
 			}
